@@ -175,3 +175,58 @@ def reconnect_unsafe_rule(m: Model, r: Report, rid: str) -> None:
         r.check(args in ([tpar], [f"timeout={tpar}"]), rid, f"{ru.qualname}#timeout-unchanged",
                 f"the transport's reconnect() receives {args}: the caller's timeout must be passed on unchanged (None lets the transport choose its retry window, "
                 "e.g. 10 s for DoIP)", loc=ru.loc)
+
+
+def guarded_attribute_access(m: Model, r: Report, rid: str, fn, var: str, base_qual: str, extra_classes: list[str] = ()) -> int:
+    """Every `var.<attr>` read in fn is safe for every concrete class var can be an instance of: the isinstance guards on the path
+    are evaluated for each subclass of the base class, and wherever they let the class through, the class (its MRO: methods, properties,
+    class attributes, attributes assigned in __init__) must provide the attribute.  Catches a guard written against a sibling class."""
+    from sa.model import ClassInfo, walk_no_nested
+    from sa.util import path_condition
+    from sa import miniterp
+    base = m.require_class(base_qual)
+    classes = [c for c in m.subclasses(base) if not any(ast.unparse(d) == "abstractmethod" for f in c.methods.values() for d in f.node.decorator_list)]
+    classes += [m.require_class(q) for q in extra_classes]
+
+    def provides(c: ClassInfo, attr: str) -> bool:
+        for k in m.mro(c):
+            if attr in k.methods or attr in k.class_attrs or attr in k.class_annots:
+                return True
+            for f in k.methods.values():
+                if any(isinstance(n, (ast.Assign, ast.AnnAssign)) and ast.unparse(n.targets[0] if isinstance(n, ast.Assign) else n.target) == f"self.{attr}" for n in ast.walk(f.node)):
+                    return True
+        return False
+
+    n = 0
+    stmts = [s for s in ast.walk(fn.node) if isinstance(s, ast.stmt) and not isinstance(s, (ast.If, ast.For, ast.While, ast.Try, ast.With, ast.FunctionDef, ast.AsyncFunctionDef))]
+    for st in stmts:
+        attrs = sorted({x.attr for x in ast.walk(st) if isinstance(x, ast.Attribute) and isinstance(x.value, ast.Name) and x.value.id == var and isinstance(x.ctx, ast.Load)})
+        attrs = [a for a in attrs if not a.startswith("__")]
+        if not attrs:
+            continue
+        conds = [(t, pol) for t, pol in path_condition(fn.node, st) if f"isinstance({var}," in ast.unparse(t).replace(" ", "").replace("isinstance(" + var + ",", f"isinstance({var},")]
+        if not conds:
+            continue
+        for attr in attrs:
+            n += 1
+            bad = []
+            for c in classes:
+                def oracle(call, env, c=c):
+                    if ast.unparse(call.func) == "isinstance" and len(call.args) == 2 and isinstance(call.args[0], ast.Name) and call.args[0].id == var:
+                        tys = call.args[1].elts if isinstance(call.args[1], ast.Tuple) else ([call.args[1].left, call.args[1].right] if isinstance(call.args[1], ast.BinOp) else [call.args[1]])
+                        for t in tys:
+                            k = m.resolve_expr(fn.module, t, fn.cls)
+                            if isinstance(k, ClassInfo) and m.is_subclass(c, k):
+                                return True
+                        return False
+                    return NotImplemented
+                try:
+                    through = all(bool(miniterp.eval_expr(t, {var: c.name}, oracle)) == pol for t, pol in conds)
+                except AnalysisError:
+                    through = False          # a guard this rule cannot evaluate: no claim
+                if through and not provides(c, attr):
+                    bad.append(c.name)
+            r.check(not bad, rid, f"{fn.qualname}#{var}.{attr}@{'&'.join(ast.unparse(t)[:40] for t, _ in conds)[:60]}",
+                    f"`{var}.{attr}` is read under {[('' if p else 'not ') + ast.unparse(t) for t, p in conds]}, which lets {bad[:4]} through, but these classes have no "
+                    f"attribute `{attr}`: AttributeError at run time (here: the row of that exchange is lost)", loc=f"{fn.module.relpath}:{st.lineno}")
+    return n
